@@ -7,7 +7,7 @@ from comp.rb.check import CASE_NAMES, ROTATING
 
 # rebalancing cases that re-aggregate rotated nodes + the replace_node path: zero hits = coverage rule broken
 REQUIRED = sorted(ROTATING | {3, 4, 30, 31, 32, 40, 41, 42, 43})
-EVENTS = ["max_raised", "max_shrunk", "early_differs", "early_same"]
+EVENTS = ["max_raised", "max_shrunk", "early_differs", "early_same", "qtyped"]
 
 RULE = ("seeded op scripts on frg::interval_tree instantiated with P = uint64_t, int64_t and double (the same histories with endpoints "
         "shifted / scaled: negative, mixed-sign, fractional; the N-endpoint model is compared through an order-isomorphic code) over a node pool (i lo hi id / r id / q lb ub / p x, plus w/a/A: upper(node) "
@@ -33,6 +33,9 @@ ASSUMPTIONS = ["insert only nodes not contained, remove only contained nodes (id
                "node identities of contained elements are pairwise distinct",
                "lower <= upper for every inserted interval (otherwise FRG_ASSERT stops the call: modelled, compared)",
                "endpoints are totally (pre)ordered by <=, < is its strict part (integers, doubles without NaN; NaN endpoints are skipped by harness and driver)",
+               "the query bounds are converted to the endpoint type P once, at the call (for_overlaps takes P lb, P ub): the model knows only P-valued "
+               "queries; the harness passes unsigned / size_t / short / int / float / mixed arguments holding the same value (qt / pt) and checks that "
+               "the answer equals the P-typed query's (iv-qtype) and the brute force",
                "query with lb <= ub (for lb > ub the code's test differs from the property's; Example C07_inverted_query_differs)",
                "upper/lower of a contained node are not modified without calling aggregate_path (the w/a scripts do exactly that; C07_aggregate_path_restores)"]
 
@@ -145,8 +148,10 @@ def run(c):
         # every generated history runs on one of the three instantiations of the harness: P = uint64_t, int64_t (endpoints
         # shifted: all negative / mixed sign), double (shifted and scaled by 0.25: negative, mixed-sign, fractional)
         def typed(ls):
-            typ = c.rng.choice(["u64", "u64", "i64", "f64", "f64"])
-            return gen.retype(ls, typ, c.rng.choice([100, 4, 4, 0, 1 << 20]))
+            typ = c.rng.choice(["u64", "u64", "i64", "i64", "i32", "f64", "f64"])
+            if typ == "i32" and any(int(x) >= (1 << 30) for l in ls[1:] if l[0] in "iqpw" for x in l.split()[1:]):
+                typ = "i64"
+            return gen.retype(ls, typ, c.rng.choice([100, 4, 4, 4, 0, 1 << 20]), c.rng)
         for i in range(8000 if thorough else 2000):
             cases.append(("g%d" % i, typed(gen.gen_case(c.rng))))
         for i in range(3000 if thorough else 600):
@@ -170,26 +175,26 @@ def run(c):
         # endpoint universe {0..7}: all sequences of <= 3 intervals (quick) / <= 4 intervals (thorough) x all queries
         if thorough:
             enum = gen.enum_cases(2, 8, 1) + gen.enum_cases(3, 8, 16) + gen.enum_cases(4, 8, 64) + gen.enum_cases(5, 5, 32) + gen.enum_cases(6, 3, 8)
-            enum += gen.enum_cases(3, 8, 16, "f64") + gen.enum_cases(4, 8, 64, "f64") + gen.enum_cases(3, 8, 16, "i64") + gen.enum_cases(4, 6, 16, "i64")
+            enum += gen.enum_cases(3, 8, 16, "f64") + gen.enum_cases(4, 8, 64, "f64") + gen.enum_cases(3, 8, 16, "i64") + gen.enum_cases(4, 6, 16, "i64") + gen.enum_cases(3, 8, 16, "i32")
         else:
             sh = c.rng.randrange(64)
             enum = gen.enum_cases(2, 8, 1) + gen.enum_cases(3, 8, 16) + gen.enum_cases(4, 4, 4) + [gen.enum_cases(4, 8, 64)[sh]] + [gen.enum_cases(5, 5, 256)[sh]]
             # the double / signed instantiations: endpoints (e - 4) * 0.25 resp. e - 4, i.e. negative and mixed sign
-            enum += gen.enum_cases(3, 8, 16, "f64") + [gen.enum_cases(4, 8, 64, "f64")[sh]] + gen.enum_cases(3, 6, 8, "i64")
+            enum += gen.enum_cases(3, 8, 16, "f64") + [gen.enum_cases(4, 8, 64, "f64")[sh]] + gen.enum_cases(3, 6, 8, "i64") + gen.enum_cases(3, 6, 8, "i32")
         ex += enum
         c.count("interval_exhaustive_cases", len(ex))
         cases += ex
     for _, ls in cases:
         c.count("interval_ops", len(ls) - 1)
         for l in ls[1:]:
-            c.count("interval_op_" + {"i": "insert", "r": "remove", "q": "query2", "p": "query1", "w": "write_upper", "a": "aggregate_path", "A": "reaggregate"}.get(l.split()[0], "other"))
-            if l[0] == "q":
+            c.count("interval_op_" + {"i": "insert", "r": "remove", "q": "query2", "p": "query1", "qt": "query2_other_argument_type", "pt": "query1_other_argument_type", "w": "write_upper", "a": "aggregate_path", "A": "reaggregate"}.get(l.split()[0], "other"))
+            if l.split()[0] == "q":
                 w = l.split()
                 if float(w[1]) > float(w[2]):
                     c.count("interval_query_inverted_lb_gt_ub")
         w = ls[0].split() if ls else []
         if len(w) >= 3:
-            c.count("interval_endpoint_type_" + (w[-1] if w[-1] in ("i64", "f64") else "u64"))
+            c.count("interval_endpoint_type_" + (w[-1] if w[-1] in ("i64", "i32", "f64") else "u64"))
             p = int(w[1]) if w[1].isdigit() else 0
             c.count("interval_pool_" + ("le8" if p <= 8 else "le24" if p <= 24 else "le64" if p <= 64 else "big"))
     # self-enumeration cases first (one long run each, spread over the shards), then big scripts
